@@ -35,10 +35,54 @@ def native_job(exe, scen, seed, n, quar=1, timeout=150):
     return dict(argv=[exe, scen, str(seed), str(n), str(quar)], timeout=timeout)
 
 
-def sysmon_job(exe, scen, seed, n, log, quar=1, timeout_s=60, entries=False):
-    cmd = syslog.sysmon_cmd(log, [exe, scen, str(seed), str(n), str(quar)], timeout_s=timeout_s,
+def sysmon_job(exe, scen, seed, n, log, quar=1, timeout_s=60, entries=False, extra=()):
+    cmd = syslog.sysmon_cmd(log, [exe, scen, str(seed), str(n), str(quar)] + [str(x) for x in extra], timeout_s=timeout_s,
                             idle_ms=300, entries=entries)
     return dict(argv=cmd, timeout=timeout_s + 30)
+
+
+# calls that are part of every window but are not spawn's own work / must not be refused
+_NOT_SPAWN_CALLS = {syslog.NR["futex"], syslog.NR["munmap"], 0x5EC0}
+
+
+def spawn_call_sequence(evs):
+    """From a `fault_discover` log: the system calls the spawning thread makes between the BEGIN(3) marker and
+    the "spawn returned" report (79), as an ordered list of (nr, occurrence) pairs; None if the three
+    un-injected spawns of the run do not agree (then the enumeration would not be meaningful)."""
+    seqs, cur = [], None
+    for e in evs:
+        if e.k == "M" and e.kind == syslog.MARK["BEGIN"] and e.a[0] == 3:
+            cur = (e.tid, [])
+        elif e.k == "M" and e.kind == syslog.MARK["REPORT"] and e.a[0] == 79 and cur is not None:
+            seqs.append(cur[1])
+            cur = None
+        elif e.k == "S" and cur is not None and e.tid == cur[0] and e.nr not in _NOT_SPAWN_CALLS:
+            cur[1].append(e.nr)
+    if not seqs or any(q != seqs[-1] for q in seqs[1:]):
+        return None
+    out, seen = [], {}
+    for nr in seqs[-1]:
+        out.append((nr, seen.get(nr, 0)))
+        seen[nr] = seen.get(nr, 0) + 1
+    return out
+
+
+def discover_spawn_calls(exes, seed, tag):
+    """Run `fault_discover` under sysmon for every flavour; returns {(mode, release): [(nr, occurrence), ...] or None}."""
+    jobs, logs = [], []
+    for m, r, exe in exes:
+        log = tmp_log(tag + "-discover")
+        logs.append(log)
+        jobs.append(sysmon_job(exe, "fault_discover", seed, 3, log, timeout_s=20))
+    out = {}
+    for (m, r, exe), log, rr in zip(exes, logs, vlib.run_parallel(jobs)):
+        try:
+            evs = syslog.parse(log)
+            os.unlink(log)
+        except OSError:
+            evs = []
+        out[(m, r)] = spawn_call_sequence(evs) if rr["rc"] == 0 else None
+    return out
 
 
 def hang_certificate(evs):
@@ -86,6 +130,7 @@ def thread_lifecycle(evs):
     maps = {}           # tgid -> {start: (len, seq, tid)}
     pending_stack = {}  # parent tid -> start of its last stack-sized mapping
     stack_owner = {}    # (tgid, start) -> record owning that live stack
+    clone_sp = {}       # parent tid -> stack pointer argument of its clone call in flight (from 's' lines)
     cur = {}            # tid -> current record
     recs = {}
     inc = {}
@@ -116,11 +161,22 @@ def thread_lifecycle(evs):
             r["spawned"] = True
             r["clone_seq"] = e.seq
             st = pending_stack.pop(e.tid, None)
+            # with syscall-entry lines in the log the stack is whatever mapping holds the stack pointer handed
+            # to clone (independent of the mapping's size, guard pages, or what else the parent mapped since)
+            sp = clone_sp.pop(e.tid, None)
+            if sp is not None:
+                for a, (ln, _sq, _t) in maps.get(e.tgid, {}).items():
+                    if a < sp <= a + ln:
+                        st = a
+                        break
             if st is not None and st in maps.get(e.tgid, {}):
                 r["stack"] = st
                 r["stack_len"] = maps[e.tgid][st][0]
                 r["map_seq"] = maps[e.tgid][st][1]
                 stack_owner[(e.tgid, st)] = r
+        elif e.k == "s":
+            if e.nr == syslog.NR["clone"] and (e.args[0] & CLONE_THREAD):
+                clone_sp[e.tid] = e.args[1]
         elif e.k == "S":
             m = maps.setdefault(e.tgid, {})
             r = cur.get(e.tid)
